@@ -328,6 +328,22 @@ def conversion_classes(ctx):
     add(src_dtype="uint64", src_enc="compressed_segmentation", dst_enc="compressed_segmentation", copy="copy",
         **dict(sv, shape=[24, 24, 17]))
     add(src_dtype="uint32", dst_enc="compressed_segmentation", channels=2, **dict(sv, shape=[32, 16, 9]))
+    # 25. compressed_segmentation pyramids whose scales declare DIFFERENT block sizes (hand edit of
+    #     the info), on the source and on the destination side; every scale is read back with a
+    #     fresh decoder built from ITS OWN scale entry (chunk_encoding.get_encoder(info, scale))
+    pb = dict(src_type="segmentation", dst_type="segmentation", kind="blobs", method="majority",
+              shape=[40, 18, 17], voxel=[1.0, 1.0, 1.0], tgt=16)
+    add(src_dtype="uint32", dst_enc="compressed_segmentation", dst_bs="bs8/4", **pb)
+    add(src_dtype="uint64", dst_enc="compressed_segmentation", dst_bs="bs4/16x16x4", dst_sh="s110",
+        **dict(pb, iso=True))
+    add(src_dtype="uint32", src_enc="compressed_segmentation", src_bs="bs8/4", dst_enc="raw", **pb)
+    add(src_dtype="uint32", src_enc="compressed_segmentation", src_bs="bs16/8", dst_enc="compressed_segmentation",
+        dst_bs="bs4/8", dst_dtype="uint64", **pb)
+    add(src_dtype="uint64", src_enc="compressed_segmentation", src_bs="bs4/8x8x16", copy="copy",
+        dst_enc="compressed_segmentation", **pb)
+    add(src_dtype="uint32", dst_enc="compressed_segmentation", dst_bs="bs16/4/8", kind="supervoxel",
+        src_type="segmentation", dst_type="segmentation", method="stride", shape=[70, 16, 16],
+        voxel=[1.0, 1.0, 1.0], tgt=16)
     return out
 
 
